@@ -5,7 +5,7 @@ namespace LinVerif.Lemmas.C02
 open LinVerif.VersionSet LinVerif.TableCache
 
 theorem safe_init (v0 f0 : Nat) : Safe (St.init v0 f0) := by
-  refine ⟨?_, ?_, ?_, ?_, ?_, ?_, ?_, ?_, ?_, ?_, ?_, ?_, ?_, ?_⟩ <;> simp [St.init, cntOpen, VData.nos, holdSum]
+  refine ⟨?_, ?_, ?_, ?_, ?_, ?_, ?_, ?_, ?_, ?_, ?_, ?_, ?_, ?_⟩ <;> simp [St.init, cntOpen, VData.nos, VData.rollupFiles, holdSum]
 
 theorem ownRange_of_edit {pc : Pc} (h : editRange pc = true) : ownRange pc = true := by
   cases pc <;> simp_all [editRange, ownRange]
@@ -462,9 +462,9 @@ theorem mem_nos_applyEdit {v : VData} {e : Edit} {f : Nat} (h : f ∈ (applyEdit
   simp only [applyEdit, VData.nos, List.map_append, List.mem_append, List.mem_map, List.mem_filter] at h ⊢
   grind
 
-theorem mem_rollup_applyEdit {v : VData} {e : Edit} {f : Nat} (h : f ∈ (applyEdit v e).rollup) :
-    f ∈ v.rollup ∨ f ∈ e.rollAdd := by
-  simp only [applyEdit, List.mem_append, List.mem_filter] at h
+theorem mem_rollup_applyEdit {v : VData} {e : Edit} {f : Nat} (h : f ∈ (applyEdit v e).rollupFiles) :
+    f ∈ v.rollupFiles ∨ f ∈ e.rollAdd.map (·.1) := by
+  simp only [applyEdit, VData.rollupFiles, List.map_append, List.mem_append, List.mem_map, List.mem_filter] at h ⊢
   grind
 
 theorem jobOk_build {s : St} {e : Edit} {k : Nat} {b : Job} (h : JobOk s k b)
@@ -514,7 +514,7 @@ theorem jobOk_build {s : St} {e : Edit} {k : Nat} {b : Job} (h : JobOk s k b)
   all_goals grind
 
 theorem safe_build {s : St} {e : Edit} (h : Safe s)
-    (hadds : ∀ m ∈ e.adds, m.no < s.nextFile) (hroll : ∀ f ∈ e.rollAdd, f < s.nextFile)
+    (hadds : ∀ m ∈ e.adds, m.no < s.nextFile) (hroll : ∀ f ∈ e.rollAdd.map (·.1), f < s.nextFile)
     (hnl : ∀ k, k < s.nJob → (s.job k).pc ≠ .cLocked) :
     Safe (buildVersion s e) := by
   obtain ⟨a1, a2, a3, a4, b1, b2, b3, bj, bd, c1, c2, c3, c4, d1⟩ := h
@@ -590,7 +590,7 @@ theorem dead_swap {s : St} {v : Nat} {e : Edit} {f : Nat} (heq : s.ver v = apply
 theorem deadR_swap {s : St} {v : Nat} {e : Edit} {f : Nat} (heq : s.ver v = applyEdit (s.ver s.cur) e)
     (hcur : s.cur ∈ s.active)
     (hadds : ∀ m ∈ e.adds, m.no ∈ s.pending ∨ ∃ w ∈ s.active, m.no ∈ (s.ver w).nos)
-    (hroll : ∀ g ∈ e.rollAdd, g ∈ s.pending)
+    (hroll : ∀ g ∈ e.rollAdd.map (·.1), g ∈ s.pending)
     (hd : DeadR s f) : DeadR (swapVersion s v e) f := by
   refine ⟨dead_swap heq hcur hadds hd.1, ?_⟩
   have : (swapVersion s v e).ver (swapVersion s v e).cur = s.ver v := rfl
@@ -603,7 +603,7 @@ theorem deadR_swap {s : St} {v : Nat} {e : Edit} {f : Nat} (heq : s.ver v = appl
 theorem jobOk_swap {s : St} {v : Nat} {e : Edit} {k : Nat} {b : Job} (h : JobOk s k b)
     (heq : s.ver v = applyEdit (s.ver s.cur) e) (hcur : s.cur ∈ s.active)
     (hadds : ∀ m ∈ e.adds, m.no ∈ s.pending ∨ ∃ w ∈ s.active, m.no ∈ (s.ver w).nos)
-    (hroll : ∀ g ∈ e.rollAdd, g ∈ s.pending)
+    (hroll : ∀ g ∈ e.rollAdd.map (·.1), g ∈ s.pending)
     (hnob : b.pc ≠ .cSnapped) : JobOk (swapVersion s v e) k b := by
   obtain ⟨h0, hn0, hn0b, hn0c, hn1, hn2, h1, h2, h3, h4, h5, h6, h7, h8, h9, h10, hrec, hnf, hrd, h11, h12, h13, h14⟩ := h
   constructor
@@ -616,12 +616,12 @@ theorem jobOk_swap {s : St} {v : Nat} {e : Edit} {k : Nat} {b : Job} (h : JobOk 
 theorem safe_swap {s : St} {v : Nat} {e : Edit} (h : Safe s) (hv : v < s.nextVer)
     (heq : s.ver v = applyEdit (s.ver s.cur) e)
     (hadds : ∀ m ∈ e.adds, m.no ∈ s.disk ∧ (m.no ∈ s.pending ∨ ∃ w ∈ s.active, m.no ∈ (s.ver w).nos))
-    (hroll : ∀ g ∈ e.rollAdd, g ∈ s.pending ∧ g ∈ s.disk)
+    (hroll : ∀ g ∈ e.rollAdd.map (·.1), g ∈ s.pending ∧ g ∈ s.disk)
     (hnob : ∀ k, k < s.nJob → (s.job k).pc ≠ .cSnapped) : Safe (swapVersion s v e) := by
   obtain ⟨a1, a2, a3, a4, b1, b2, b3, bj, bd, c1, c2, c3, c4, d1⟩ := h
   have hadds' : ∀ m ∈ e.adds, m.no ∈ s.pending ∨ ∃ w ∈ s.active, m.no ∈ (s.ver w).nos :=
     fun m hm => (hadds m hm).2
-  have hroll' : ∀ g ∈ e.rollAdd, g ∈ s.pending := fun g hg => (hroll g hg).1
+  have hroll' : ∀ g ∈ e.rollAdd.map (·.1), g ∈ s.pending := fun g hg => (hroll g hg).1
   constructor
   case jobs => intro k hk; exact jobOk_swap (bj k hk) heq a1 hadds' hroll' (hnob k hk)
   case held_dead => intro i hi ho f hf hn; exact dead_swap heq a1 hadds' (c4 i hi ho f hf hn)
